@@ -4,6 +4,9 @@ import (
 	"fmt"
 	"net"
 	"os"
+	"path/filepath"
+	"sort"
+	"time"
 
 	"golang.org/x/crypto/ssh/agent"
 
@@ -116,5 +119,120 @@ func authSock(r *ev.Run) {
 			}
 			r.Nontrivial(fmt.Sprintf("auth-sock:%v", pattern))
 		})
+	}
+}
+
+// reRegistration: the registered key is what the key file says when the request is served. A user's key is replaced by
+// another one of the same type (so the file keeps its size) and the file keeps its modification time (as a
+// provisioning tool that preserves time stamps leaves it). From then on only the new key proves possession: a
+// requester holding the old one is refused, on the same handler and on a new one.
+func reRegistration(r *ev.Run) {
+	if !r.Want("re-registration") {
+		return
+	}
+	pool := gen.Pool()
+	var byType = map[string][]*gen.Key{}
+	for _, k := range pool {
+		byType[k.Pub.Type()] = append(byType[k.Pub.Type()], k)
+	}
+	idx := 0
+	var types []string
+	for typ := range byType {
+		types = append(types, typ)
+	}
+	sort.Strings(types)
+	for _, typ := range types {
+		ks := byType[typ]
+		if len(ks) < 2 {
+			continue
+		}
+		for _, ext := range []string{".pub", ""} {
+			c := r.Case("re-registration", idx)
+			idx++
+			if c == nil {
+				continue
+			}
+			rec := map[string]any{"key_type": typ, "file": "alice" + ext}
+			r.Eval(1)
+			r.Guard(c, "re-registered key", rec, func() {
+				kd, err := gsrig.NewKeyDir()
+				if err != nil {
+					r.Inconclusive(err.Error())
+					return
+				}
+				defer kd.Remove()
+				oldK, newK := ks[0], ks[1]
+				lineOld, lineNew := gsrig.AuthorizedLine(oldK.Pub, "alice"), gsrig.AuthorizedLine(newK.Pub, "alice")
+				kd.Write("alice"+ext, lineOld)
+				stamp := time.Now().Add(-72 * time.Hour).Truncate(time.Second)
+				os.Chtimes(filepath.Join(kd.Path, "alice"+ext), stamp, stamp)
+				gc, _, err := gsrig.GensignConfig(gsrig.Conf{PubKeyDir: kd.Path, Identifiers: map[string]string{"default": "d"}, ValiditySec: 600})
+				if err != nil {
+					r.Inconclusive(err.Error())
+					return
+				}
+				run := func(rig *gsrig.Rig, what string) (provisioned bool, ok bool) {
+					signer := &gsrig.Signer{}
+					runErr, escaped := gsrig.Run(gsrig.Param(gsrig.ParamSpec{LogName: "alice", ReqUser: "u", ReqHost: "h", ClientIP: "10.9.8.7", TransID: gen.Ident(c.Rand, 10), Policy: "NONS"}), []gensign.Handler{rig.Handler}, signer)
+					if escaped != "" {
+						r.Violation(c, gsrig.EscapeSig(escaped)+":re-registration", escaped, rec)
+						return false, false
+					}
+					return runErr == nil && signer.NumCalls() > 0, true
+				}
+				agOld, agNew := wire.New(), wire.New()
+				defer agOld.Close()
+				defer agNew.Close()
+				agOld.Keyring.Add(agent.AddedKey{PrivateKey: oldK.Priv, Comment: "old key"})
+				agNew.Keyring.Add(agent.AddedKey{PrivateKey: newK.Priv, Comment: "new key"})
+				rigOld, err := gsrig.NewRig(agOld, gc)
+				if err != nil {
+					r.Violation(c, "handler-construction-fails", err.Error(), rec)
+					return
+				}
+				defer rigOld.Close()
+				if p, ok := run(rigOld, "before"); !ok || !p {
+					if ok {
+						r.Violation(c, "refused-although-the-requesters-agent-proved-possession:re-registration", "before the key was replaced", rec)
+					}
+					return
+				}
+				// the key is replaced: same size (same type and comment), same modification time
+				if len(lineOld) != len(lineNew) {
+					r.Count("re-registration: the two key lines differ in length (skipped)", 1)
+					return
+				}
+				kd.Write("alice"+ext, lineNew)
+				os.Chtimes(filepath.Join(kd.Path, "alice"+ext), stamp, stamp)
+				if p, ok := run(rigOld, "after, same handler"); !ok || p {
+					if ok {
+						r.Violation(c, "provisioning-under-a-key-that-is-no-longer-registered:same-handler", fmt.Sprintf("the %s key in %s was replaced by another one (same size, same modification time); a requester holding only the old key was provisioned", typ, "alice"+ext), rec)
+					}
+					return
+				}
+				rigOld2, err := gsrig.NewRig(agOld, gc)
+				if err == nil {
+					defer rigOld2.Close()
+					if p, ok := run(rigOld2, "after, new handler"); !ok || p {
+						if ok {
+							r.Violation(c, "provisioning-under-a-key-that-is-no-longer-registered:new-handler", fmt.Sprintf("the %s key in %s was replaced by another one (same size, same modification time); a requester holding only the old key was provisioned by a handler built afterwards", typ, "alice"+ext), rec)
+						}
+						return
+					}
+				}
+				rigNew, err := gsrig.NewRig(agNew, gc)
+				if err == nil {
+					defer rigNew.Close()
+					if p, ok := run(rigNew, "after, new key"); !ok || !p {
+						if ok {
+							r.Violation(c, "refused-although-the-requesters-agent-proved-possession:re-registration", "the holder of the newly registered key", rec)
+						}
+						return
+					}
+				}
+				r.Count("re-registrations that kept file size and modification time: only the new key proves possession", 1)
+				r.Nontrivial("re-registration:" + typ + ext)
+			})
+		}
 	}
 }
